@@ -38,7 +38,15 @@ AbstractParameterAliasable::AbstractParameterAliasable(const AbstractParameterAl
 
 AbstractParameterAliasable& AbstractParameterAliasable::operator=(const AbstractParameterAliasable& ap)
 {
+  if (this == &ap)
+    return *this;
+
   AbstractParametrizable::operator=(ap);
+
+  // Forget the former state of this object: the independent parameters
+  // it listed (they are not its parameters any more) and its own aliases.
+  independentParameters_.reset();
+  aliasListenersRegister_.clear();
 
   for (size_t i = 0; i < ap.independentParameters_.size(); i++)
   {
